@@ -493,6 +493,8 @@ impl ContinuityStore {
 
         let mut tail_bytes = INITIAL_TAIL_BYTES;
         while tail_bytes <= MAX_TAIL_BYTES {
+            #[cfg(rip_verif)]
+            rip_kernel::verif::point("scan.iter", "compile_input.tail");
             match self.stream_cache.scan_tail_messages_runs_v1(
                 continuity_id,
                 MAX_TAIL_EVENTS,
@@ -1502,6 +1504,8 @@ impl ContinuityStore {
         while tail_bytes <= MAX_TAIL_BYTES
             && (last_schedule_decision.is_none() || last_job_outcome.is_none())
         {
+            #[cfg(rip_verif)]
+            rip_kernel::verif::point("scan.iter", "compaction_status.tail");
             match self
                 .stream_cache
                 .scan_tail(thread_id, MAX_TAIL_EVENTS, tail_bytes)
@@ -1770,6 +1774,8 @@ impl ContinuityStore {
         let mut tail_bytes = INITIAL_TAIL_BYTES;
         let mut scanned_sidecar = false;
         while tail_bytes <= MAX_TAIL_BYTES {
+            #[cfg(rip_verif)]
+            rip_kernel::verif::point("scan.iter", "cursor_status.tail");
             match self
                 .stream_cache
                 .scan_tail(thread_id, MAX_TAIL_EVENTS, tail_bytes)
@@ -1954,6 +1960,8 @@ impl ContinuityStore {
         let mut target: Option<(String, Option<String>, Option<String>)> = None;
         let mut tail_bytes = INITIAL_TAIL_BYTES;
         while tail_bytes <= MAX_TAIL_BYTES && target.is_none() {
+            #[cfg(rip_verif)]
+            rip_kernel::verif::point("scan.iter", "cursor_rotate.tail");
             match self
                 .stream_cache
                 .scan_tail(thread_id, MAX_TAIL_EVENTS, tail_bytes)
@@ -2067,6 +2075,8 @@ impl ContinuityStore {
         let mut scanned_sidecar = false;
         let mut tail_bytes = INITIAL_TAIL_BYTES;
         while tail_bytes <= MAX_TAIL_BYTES && decisions.len() < limit {
+            #[cfg(rip_verif)]
+            rip_kernel::verif::point("scan.iter", "selection_status.tail");
             match self
                 .stream_cache
                 .scan_tail(thread_id, MAX_TAIL_EVENTS, tail_bytes)
@@ -2681,6 +2691,8 @@ impl ContinuityStore {
                 if cut.to_seq > 0 {
                     let mut search_max = cut.to_seq.saturating_sub(1);
                     while search_max > 0 {
+                        #[cfg(rip_verif)]
+                        rip_kernel::verif::point("scan.iter", "auto_summary.base_search");
                         let cache_best = self
                             .stream_cache
                             .latest_compaction_checkpoint_before_or_at_seq_v1(
